@@ -541,6 +541,14 @@ Array<int> String::chars() const
 
 void String::assign(const char* b, int n)
 {
+	char* s0 = str();
+	if (b >= s0 && b <= s0 + _len) // b is (a piece of) this string: it fits; do not reallocate or clobber it
+	{
+		memmove(s0, b, n);
+		s0[n] = '\0';
+		_len = n;
+		return;
+	}
 	resize(n, false);
 	char* s = str();
 	memcpy(s, b, _len);
